@@ -76,6 +76,10 @@ pub struct Case {
     pub keys: Vec<u8>,
     pub threshold: u8,
     pub sigs: Vec<Sig>,
+    /// only at the site "root hop under new keys": the shipped root lists the SAME root keys with
+    /// threshold 1, so that the hop changes nothing but the threshold
+    #[serde(default)]
+    pub same_keys: bool,
 }
 
 // reserved pool keys (all ed25519) for the clean parts of the repository
@@ -184,6 +188,9 @@ pub fn build(case: &Case) -> Scenario {
             roots.push(r2);
         }
         Site::HopNewKeys => {
+            if case.same_keys {
+                r1.root = RoleKeys::new(rk.clone(), 1);
+            }
             let mut r2 = r1.clone();
             r2.version = 2;
             r2.root = tested.clone();
@@ -302,7 +309,7 @@ pub fn build(case: &Case) -> Scenario {
         // the other party of a root hop signs cleanly
         match site {
             Site::HopOldKeys => list.push(forge::sig_entry(key(K_ROOT2), c)),
-            Site::HopNewKeys => list.push(forge::sig_entry(key(K_ROOT), c)),
+            Site::HopNewKeys if !case.same_keys => list.push(forge::sig_entry(key(K_ROOT), c)),
             _ => {}
         }
         Some(list)
@@ -495,7 +502,11 @@ fn case_strategy() -> impl Strategy<Value = Case> {
         1u8..=4,
         prop::collection::vec(sig_strategy(), 0..=5),
     )
-        .prop_map(|(site, consistent, keys, threshold, sigs)| Case { site, consistent, keys, threshold, sigs })
+        .prop_map(|(site, consistent, keys, threshold, sigs)| {
+            // a third of the hops under new keys change nothing but the threshold
+            let same_keys = site == Site::HopNewKeys && (sigs.len() + keys.len()) % 3 == 0;
+            Case { site, consistent, keys, threshold, sigs, same_keys }
+        })
 }
 
 /// all signature lists of length <= max_len for n role keys (ed25519), thresholds 1..=n
@@ -534,7 +545,13 @@ fn enumerate(n: u8, max_len: usize) -> Vec<Case> {
                     keys: (0..n).collect(),
                     threshold: t,
                     sigs: l.clone(),
+                    same_keys: false,
                 });
+                if site == Site::HopNewKeys {
+                    let mut c = out.last().unwrap().clone();
+                    c.same_keys = true;
+                    out.push(c);
+                }
             }
         }
     }
@@ -553,7 +570,7 @@ pub fn check(ctx: &Ctx) -> Vec<PartReport> {
         ctx,
         PartSpec {
             name: "lists-exhaustive",
-            rule: "EXHAUSTIVE: at each of the 8 verification sites, 2 ed25519 role keys, thresholds 1 and 2, every signature list of length <=3 (quick) / <=4 (thorough; plus 3 keys, thresholds 1..3, lists <=3) over {valid by k, valid by k with upper-case key id, corrupted by k, valid over other content by k (k=0,1), key of another role, unknown key, key id listed but key missing from the table}; each case is a forged repository loaded through RepositoryLoader::load and the parsed documents passed to verify_role. Non-trivial: threshold >=2 or any entry other than a plain valid signature; distinct = (site, n, threshold, multiset of kinds)",
+            rule: "EXHAUSTIVE: at each of the 8 verification sites (the hop under new keys twice: with replaced root keys, and with the same root keys and only the threshold raised), 2 ed25519 role keys, thresholds 1 and 2, every signature list of length <=3 (quick) / <=4 (thorough; plus 3 keys, thresholds 1..3, lists <=3) over {valid by k, valid by k with upper-case key id, corrupted by k, valid over other content by k (k=0,1), key of another role, unknown key, key id listed but key missing from the table}; each case is a forged repository loaded through RepositoryLoader::load and the parsed documents passed to verify_role. Non-trivial: threshold >=2 or any entry other than a plain valid signature; distinct = (site, n, threshold, multiset of kinds)",
             mode: Mode::Enumerate { cases, complete: true },
             prop: Box::new(prop),
             require: vec![],
